@@ -6,6 +6,7 @@ is re-used from earlier collections (of this or of another aggregator). Helper l
 import Otel.C07.Lemmas
 import Otel.C07.LemmasColl
 import Otel.C07.LemmasDown
+import Otel.C07.LemmasRefine
 import Otel.C07.Props
 namespace Otel.C07
 open Spec
@@ -139,6 +140,36 @@ theorem coll_points_are_runs (L : Int → Val → Int) (c : Cfg) (ops : List Op)
       exact ⟨vs ++ [some v], by simp [run, runFrom, List.foldl_append, measure]⟩) ops dest r hr pv hpv
   exact ⟨a, vs, by rw [hp]⟩
 
+/-- refinement, exact form: the aggregator with several attribute sets IS a family of independent single-set
+runs. For every operation sequence, cardinality limit, temporality and initial destination, the list of all
+reports equals `specReports`: the specification that files each finite measurement under its (limited) attribute
+set and reports, for each live set, the export of `run L maxSize maxScale` on exactly the measurements of that set
+since the last reset (delta: since the last collection; cumulative: since the aggregator was created; NaN/±Inf
+never reach an attribute set) -/
+theorem coll_refines_independent_runs (L : Int → Val → Int) (c : Cfg) (ops : List Op) (dest : Slice DPoint) :
+    (aggRun L c (AggSt.init dest) ops).reports = specReports L c ops := by
+  have key : ∀ (ops : List Op) (st : AggSt) (g : GSt),
+      (st.vals = g.live.map (gPt L c) ∧ st.reports = g.reports) →
+      (aggRun L c st ops).reports = (ops.foldl (gStep L c) g).reports := by
+    intro ops
+    induction ops with
+    | nil => intro st g h; exact h.2
+    | cons op r ih =>
+      intro st g h
+      simp only [aggRun, List.foldl_cons]
+      exact ih _ _ (aggStep_refines L c st g op h)
+  exact key ops (AggSt.init dest) ⟨[], []⟩ ⟨rfl, rfl⟩
+
+/-- the specification on an example: delta, two sets; set 2 is reported in the second cycle with only its own
+second-cycle value -/
+example : specReports (fun _ v => v.ex) ⟨true, 2, 3, 0, false, false⟩
+      [.meas 1 (some ⟨false, 3, 0⟩), .meas 2 (some ⟨true, 3, 1⟩), .collect [2, 1], .meas 2 (some ⟨false, 5, 0⟩),
+       .meas 2 none, .collect [1, 2]] =
+    [[exportPoint false false 2 (run (fun _ v => v.ex) 2 3 [some ⟨true, 3, 1⟩]).1,
+      exportPoint false false 1 (run (fun _ v => v.ex) 2 3 [some ⟨false, 3, 0⟩]).1],
+     [exportPoint false false 2 (run (fun _ v => v.ex) 2 3 [some ⟨false, 5, 0⟩]).1]] := by
+  simp [specReports, gStep, gAdd, gLimit, gLookup]
+
 /-! ## explicit-bucket histogram: collection into a re-used destination -/
 
 /-- output re-use for the explicit-bucket histogram: the points of a collection are the accumulators written
@@ -178,6 +209,80 @@ theorem hcoll_points_are_runs (delta : Bool) (limit : Nat) (raw : List Int) (noM
   refine ⟨a, h, vs, nmm, hne, hrun, hpt, ?_⟩
   have := hist_ok raw vs
   rw [show histRun raw vs = some h from hrun] at this
+  exact this
+
+/-- refinement, exact form, explicit buckets, every flag combination (also `noSum`, also aggregators with other
+flags taking over the destination): the list of all reports equals `hSpecReports` — for each live attribute set
+the export, with the flags in force, of the single-set accumulator `hAcc` (= `histRun`, `histRunSorted_cons_acc`)
+of exactly that set's measurements since the last reset. The right-hand side does not mention the destination -/
+theorem hcoll_refines_independent_runs (delta : Bool) (limit : Nat) (raw : List Int) (noMinMax noSum : Bool)
+    (dest : Slice HDPoint) (ops : List HOp) :
+    (hRun delta limit raw noMinMax noSum dest ops).reports = hSpecReports delta limit raw noMinMax noSum ops := by
+  have key : ∀ (ops : List HOp) (st : HSt) (g : HGSt),
+      (st.vals = g.live.map (hgPt (sortBounds raw) st.noSum) ∧ st.noMinMax = g.noMinMax ∧ st.noSum = g.noSum ∧
+        st.reports = g.reports) →
+      (ops.foldl (hStep delta limit (sortBounds raw)) st).reports =
+        (ops.foldl (hgStep delta limit (sortBounds raw)) g).reports := by
+    intro ops
+    induction ops with
+    | nil => intro st g h; exact h.2.2.2
+    | cons op r ih =>
+      intro st g h
+      simp only [List.foldl_cons]
+      exact ih _ _ (hStep_refines delta limit _ st g op h)
+  exact key ops ⟨[], dest, noMinMax, noSum, []⟩ ⟨[], noMinMax, noSum, []⟩ ⟨rfl, rfl, rfl, rfl⟩
+
+/-- output re-use over whole runs, explicit buckets: everything ever reported is the same whatever the
+destination contained at the beginning -/
+theorem hcoll_run_independent_of_dest (delta : Bool) (limit : Nat) (raw : List Int) (noMinMax noSum : Bool)
+    (d₁ d₂ : Slice HDPoint) (ops : List HOp) :
+    (hRun delta limit raw noMinMax noSum d₁ ops).reports = (hRun delta limit raw noMinMax noSum d₂ ops).reports := by
+  rw [hcoll_refines_independent_runs, hcoll_refines_independent_runs]
+
+/-- every point ever reported by the explicit-bucket aggregator — any flags, `noSum` included — is the export of
+`histRun raw (v0 :: rest)` for the (non-empty) measurements of one attribute set, which satisfies every
+explicit-bucket clause of the statement (`hist_ok`); with `noSum` the export shows a zero sum, with `NoMinMax`
+no extrema, the bucket counts and the count are those of the run -/
+theorem hcoll_points_are_runs_all_flags (delta : Bool) (limit : Nat) (raw : List Int) (noMinMax noSum : Bool)
+    (dest : Slice HDPoint) (ops : List HOp) :
+    ∀ r ∈ (hRun delta limit raw noMinMax noSum dest ops).reports, ∀ pt ∈ r,
+      ∃ a v0 rest nmm ns h, histRun raw (v0 :: rest) = some h ∧
+        pt = writeHPoint nmm ns (sortBounds raw) default a h ∧
+        histOK raw (sortBounds raw) (v0 :: rest) (some h) = true := by
+  rw [hcoll_refines_independent_runs]
+  have key : ∀ (ops : List HOp) (g : HGSt),
+      (∀ r ∈ g.reports, ∀ pt ∈ r, ∃ a x nmm ns, pt = writeHPoint nmm ns (sortBounds raw) default a (hAcc (sortBounds raw) x)) →
+      ∀ r ∈ (ops.foldl (hgStep delta limit (sortBounds raw)) g).reports, ∀ pt ∈ r,
+        ∃ a x nmm ns, pt = writeHPoint nmm ns (sortBounds raw) default a (hAcc (sortBounds raw) x) := by
+    intro ops
+    induction ops with
+    | nil => intro g h; exact h
+    | cons op r ih =>
+      intro g h
+      simp only [List.foldl_cons]
+      apply ih
+      cases op with
+      | meas a v => exact h
+      | fresh x y => exact h
+      | collect order =>
+        intro rr hrr pt hpt
+        simp only [hgStep] at hrr
+        rcases List.mem_append.mp hrr with hrr | hrr
+        · exact h rr hrr pt hpt
+        · simp only [List.mem_singleton] at hrr
+          subst hrr
+          rcases List.mem_filterMap.mp hpt with ⟨a, _, ha⟩
+          cases hl : hgLookup g.live a with
+          | none => simp [hl] at ha
+          | some x =>
+            simp [hl] at ha
+            exact ⟨a, x, g.noMinMax, g.noSum, ha.symm⟩
+  intro r hr pt hpt
+  obtain ⟨a, x, nmm, ns, hp⟩ := key ops ⟨[], noMinMax, noSum, []⟩ (by intro r hr; simp at hr) r hr pt hpt
+  have hrun : histRun raw (x.1 :: x.2) = some (hAcc (sortBounds raw) x) := histRunSorted_cons_acc _ _ _
+  refine ⟨a, x.1, x.2, nmm, ns, _, hrun, hp, ?_⟩
+  have := hist_ok raw (x.1 :: x.2)
+  rw [hrun] at this
   exact this
 
 /-- `hcoll_points_are_runs` is not vacuous: two attribute sets, a cardinality limit of 2 (the second set is folded
